@@ -31,8 +31,10 @@ def judge(doc, wrapper: str):
             res = extract_html(wrappers.html_bytes(htmlgen.render(doc)), "html")
             text = res[0].get_full_text()
         elif wrapper.startswith("mhtml"):
-            cte = {"mhtml-qp": "quoted-printable", "mhtml-b64": "base64", "mhtml-8bit": "8bit"}[wrapper]
-            res = extract_html(wrappers.mhtml_bytes(htmlgen.render(dict(doc, shell="full")), cte=cte), "mhtml")
+            cte = {"mhtml-qp": "quoted-printable", "mhtml-b64": "base64", "mhtml-8bit": "8bit", "mhtml-qp-caps": "quoted-printable", "mhtml-b64-caps": "base64"}[wrapper]
+            spelling = {"mhtml-qp-caps": ["Quoted-Printable", "QUOTED-PRINTABLE", "quoted-Printable"], "mhtml-b64-caps": ["Base64", "BASE64", "base64 "]}.get(wrapper)
+            spelling = spelling[sum(map(ord, digest(doc))) % 3] if spelling else None
+            res = extract_html(wrappers.mhtml_bytes(htmlgen.render(dict(doc, shell="full")), cte=cte, cte_spelling=spelling), "mhtml")
             text = res[0].get_full_text()
         elif wrapper == "epub":
             if not feats["xml_ok"]:
@@ -72,7 +74,7 @@ def judge(doc, wrapper: str):
     return check_sequence(toks, text)
 
 
-WRAPPERS = ["html", "mhtml-qp", "mhtml-b64", "mhtml-8bit", "epub", "epub-2ch", "msgbody"]
+WRAPPERS = ["html", "mhtml-qp", "mhtml-b64", "mhtml-8bit", "mhtml-qp-caps", "mhtml-b64-caps", "epub", "epub-2ch", "msgbody"]
 
 
 def evaluate(ctx: Ctx, doc, part: Partial | None = None, wrappers_=WRAPPERS):
